@@ -107,6 +107,25 @@ def note_dim(c, sh, d, label="size@dim"):
         c.f[label] = "0" if n == 0 else ("1" if n == 1 else ">1")
 
 
+def note_dims(c, sh, dims):
+    """derived features of an int[] dim argument: `axes` - the normalised, sorted set of selected axes (what torch's
+    semantics depend on; sign and order of the entries are spelling), `size@dim` - has0 if an axis of extent 0 is
+    selected, 1 if every selected axis has extent 1, else >1.  A finding class can then say 'an empty axis is
+    reduced' or 'axes {1,2}' instead of listing every spelling of the pair."""
+    if dims is OMIT or dims is None or not isinstance(dims, (list, tuple)) or len(dims) == 0:
+        return
+    r = len(sh)
+    if r == 0:
+        c.f["size@dim"] = "0d"
+        return
+    if not all(isinstance(d, int) and -r <= d < r for d in dims):
+        return
+    norm = sorted({d % r for d in dims})
+    ext = [sh[d] for d in norm]
+    c.f["size@dim"] = "has0" if 0 in ext else ("1" if all(e == 1 for e in ext) else ">1")
+    c.f["axes"] = "{" + ",".join(str(d) for d in norm) + "}"
+
+
 def axes(rank, neg=True):
     """every axis of a rank-r tensor (a 0-d tensor accepts 0 and -1)"""
     r = max(rank, 1)
@@ -305,6 +324,7 @@ def fam_reduce(c):
                 menu.append(("None", None))
             menu += [(str(d).replace(" ", ""), d) for d in dim_lists(len(sh))]
             v = c.pick("dim", menu)
+            note_dims(c, sh, v)
             if v is not OMIT:
                 c.g[name] = ["N"] if v is None else L(v)
         elif name == "keepdim":
@@ -351,11 +371,13 @@ QUICK_FAMILIES = ("unary", "binary", "reduce")
 
 
 def _families(tier):
-    from vf.props import c08_dom2
-    fams = [f for f in FAMILIES + c08_dom2.FAMILIES2 if tier != "quick" or f[0] in QUICK_FAMILIES]
+    from vf.props import c08_dom2, c08_dom3
+    every = FAMILIES + c08_dom2.FAMILIES2 + c08_dom3.FAMILIES3
+    quick = QUICK_FAMILIES + c08_dom3.QUICK_FAMILIES3
+    fams = [f for f in every if tier != "quick" or f[0] in quick]
     only = os.environ.get("C08_FAMILIES")  # debugging aid: restrict the families that are planned
     if only:
-        fams = [f for f in FAMILIES + c08_dom2.FAMILIES2 if f[0] in only.split(",")]
+        fams = [f for f in every if f[0] in only.split(",")]
     return fams
 
 
